@@ -4,6 +4,7 @@ import DimodProofs.VarsRelabel
 import DimodProofs.VarsSteps
 import DimodProofs.VarsMore
 import DimodProofs.VarsWhole
+import DimodProofs.VarsKeys
 
 /-! # C13 — Variables is an order-preserving bijection between labels and indices
 
@@ -334,6 +335,46 @@ example : ∀ op ∈ [Op2.base (.append none false), .extend [some (.str "a"), n
     .base (.relabel [(.int 0, .str "a"), (.str "a", .int 0)]), .pickle, .slice ⟨none, none, some (-1)⟩,
     .base (.remove (.str "a")), .base .relabelInts], op.WF := by decide +kernel
 
+/-! ## numeric aliases: Python key equality is a canonicalisation, and the code factors through it
+
+`DimodModel/VarsKeys.lean`: `PyKey` (int, bool, integral float, NumPy integer / floating scalars, str, nested
+tuples), `pyEq` = Python `==` on them, `canon : PyKey → Label`, and `KState` = the sparse dictionaries holding the
+*objects*, with `count`, `index`, `_append`, `_pop` and the `_relabel` loop body written as coded
+(`PyLong_Check`, `isinstance(v, Number)`, `int(v) == v`, `PyDict_Contains`, `dict.pop`).  The harness checks
+`pyEq` and `canon` against CPython / NumPy dict lookups exhaustively over the alias table on every run. -/
+
+/-- Python `==` between label objects is equality of canonical labels (hence an equivalence relation) -/
+theorem key_equality_is_canon (a b : PyKey) : PyKey.pyEq a b = true ↔ PyKey.canon a = PyKey.canon b :=
+  PyKey.pyEq_iff a b
+
+/-- `1`, `True`, `1.0`, `np.int64(1)`, `np.float32(1.0)` are one label; so are tuples built from them -/
+example : PyKey.canon (.bool true) = .int 1 ∧ PyKey.canon (.float 1) = .int 1 ∧ PyKey.canon (.npInt 1) = .int 1 ∧
+    PyKey.canon (.npFloat 1) = .int 1 ∧ PyKey.pyEq (.tup [.bool true, .str "a"]) (.tup [.npFloat 1, .str "a"]) = true ∧
+    PyKey.pyEq (.str "1") (.int 1) = false ∧ PyKey.pyEq (.tup [.int 1]) (.int 1) = false := by decide +kernel
+
+/-- every primitive of `cyvariables.pyx` written over Python objects factors through `canon`: the object-level
+    state abstracts (`toV`) to the label-level state, and `count`, `index`, `_append`, `_pop`, the `_relabel` loop
+    body commute with the abstraction -/
+theorem primitives_factor_through_canon (k : KState) (h : k.toV.Inv) :
+    (∀ v, k.count v = k.toV.count (PyKey.canon v)) ∧
+    (∀ v, k.idxOf v = k.toV.idxOf (PyKey.canon v)) ∧
+    (∀ v, (k.append v).toV = k.toV.append (PyKey.canon v)) ∧
+    (k.stop ≠ 0 → k.toV.pop = some (k.pop.1.toV, PyKey.canon k.pop.2)) ∧
+    (∀ old new, (k.relabelOne old new).toV = k.toV.relabelOne (PyKey.canon old) (PyKey.canon new)) :=
+  ⟨KState.count_factors k h, KState.idxOf_factors k, KState.append_factors k, KState.pop_factors k,
+    KState.relabelOne_factors k⟩
+
+/-- hence membership / `count` of any alias is list membership of its canonical label -/
+theorem alias_count_iff_mem (k : KState) (h : k.toV.Inv) (v : PyKey) :
+    k.count v = true ↔ PyKey.canon v ∈ k.toV.abs := by
+  rw [KState.count_factors k h v]; exact VState.count_iff k.toV h _
+
+example : (KState.mk [(0, .str "a"), (2, .npInt 0)] [(.str "a", 0), (.float 0, 2)] 3).toV.Inv ∧
+    (KState.mk [(0, .str "a"), (2, .npInt 0)] [(.str "a", 0), (.float 0, 2)] 3).count (.bool false) = true ∧
+    (KState.mk [(0, .str "a"), (2, .npInt 0)] [(.str "a", 0), (.float 0, 2)] 3).count (.npFloat 1) = true ∧
+    (KState.mk [(0, .str "a"), (2, .npInt 0)] [(.str "a", 0), (.float 0, 2)] 3).count (.int 2) = false :=
+  ⟨VState.inv_of_invCheck _ (by decide +kernel), by decide +kernel⟩
+
 end C13
 
 section Axioms
@@ -356,4 +397,6 @@ section Axioms
 #print axioms C13.slice_refines
 #print axioms C13.step2_refines
 #print axioms C13.history2_refines
+#print axioms C13.key_equality_is_canon
+#print axioms C13.primitives_factor_through_canon
 end Axioms
